@@ -277,8 +277,16 @@ func init() {
 		Packages: []string{"pkg/aa"},
 		Generate: func(env *Env) *Gen {
 			g := genStandard(env, "C16", true, nil)
+			// every record of the list goes through AddRule exactly once (SSA shape obligation)
+			if fn := env.Prog.Func("pkg/logs", "(AppArmorLogs).ParseToProfiles"); fn != nil {
+				g.addFunc(env, fn)
+				g.Static = append(g.Static, frame.EveryElementPassedTo(env.Prog, fn, "aaLogs", ".AddRule", 1))
+			} else {
+				g.OutOfDate = append(g.OutOfDate, "pkg/logs:(AppArmorLogs).ParseToProfiles")
+			}
 			g.Unverified = []string{
 				"path generalisation (regResolveLogs, 60 regexes) still matching the recorded name under the shipped tunables",
+				"ParseToProfiles: under which profile name a record's rule is filed (only that every record reaches AddRule exactly once is covered)",
 			}
 			return g
 		},
